@@ -8,8 +8,24 @@ use serde_json::json;
 use vref::cpr::{self, Cpr, Decode};
 use vref::rng::Rng;
 
+/// A position report carrying the CPR values `c`. Everything else in it (type code: barometric
+/// 9-18 or GNSS height 20-22, surveillance status, antenna flag, altitude, time bit) varies
+/// pseudo-randomly with `c` and independently for the two reports of a pair: the pairing must
+/// depend on the parity and the CPR values only.
 fn alt(c: Cpr) -> Altitude {
-    Altitude { odd_flag: if c.odd { CPRFormat::Odd } else { CPRFormat::Even }, lat_cpr: c.yz, lon_cpr: c.xz, ..Altitude::default() }
+    use adsb_deku::SurveillanceStatus as SS;
+    let h = crate::collect::fnv(&[c.yz.to_le_bytes(), c.xz.to_le_bytes(), [c.odd as u8, 0, 0, 0]].concat());
+    const TCS: [u8; 13] = [9, 10, 11, 12, 13, 14, 15, 16, 17, 18, 20, 21, 22];
+    Altitude {
+        tc: TCS[(h % 13) as usize],
+        ss: [SS::NoCondition, SS::PermanentAlert, SS::TemporaryAlert, SS::SPICondition][((h >> 8) % 4) as usize],
+        saf_or_imf: ((h >> 12) & 1) as u8,
+        alt: if (h >> 16) % 5 == 0 { None } else { Some(((h >> 20) % 50_000) as u16) },
+        t: (h >> 40) & 1 == 1,
+        odd_flag: if c.odd { CPRFormat::Odd } else { CPRFormat::Even },
+        lat_cpr: c.yz,
+        lon_cpr: c.xz,
+    }
 }
 
 fn region(lat: f64) -> &'static str {
